@@ -302,7 +302,7 @@ func samplingRules(c *Ctx) {
 			default:
 				s.okShape = true
 			}
-			s.absCut = canonCutAbs(site.pa, site.op)
+			s.absCut = canonCutAbs(site.pa, site.cop())
 		}
 		defs := singleDefs(info, fd.Body)
 		ast.Inspect(fd.Body, func(n ast.Node) bool {
